@@ -39,7 +39,9 @@ theorem accepted_e (isPrime : Nat → Bool) (pk : PublicKey) (sig : CLSignature)
     `1 < order`, and `b^order ≡ 1 (mod n)` for `b = S, Z, R_0, …` (for a real key the bases are
     quadratic residues and `order = p'q'`).  `clSignWith … = some sig` contains the existence of
     `d = e⁻¹ mod order` (`common.ModInverse`).  No hypothesis on `v` or on the sign/size of the
-    messages is needed; `u = 1` (no user commitment). -/
+    messages is needed (`clSignWith … = some sig` also contains that `RepresentToPublicKey`
+    returned no error: no message is negative and longer than `Lm`, so the verifier's guard
+    passes as well); `u = 1` (no user commitment). -/
 theorem sign_verifies (isPrime : Nat → Bool) (pk : PublicKey) (order : Int) (ms : List Int)
     (v e : Int) (sig : CLSignature) (hk : pk.InGroup order) (hlen : ms.length ≤ pk.r.length)
     (hint : eInInterval pk.params e = true) (hprime : isPrime e.toNat = true)
@@ -61,6 +63,7 @@ theorem sign_verifies (isPrime : Nat → Bool) (pk : PublicKey) (order : Int) (m
     (isUnit_of_cast hac) (by rw [hkp]; intro p hp; cases hp) hlen (by rw [he]; exact hint)
     (by rw [he]; exact hprime)
   rw [hb1, hb2.mpr]
+  refine ⟨clSignWith_some_guard h, ?_⟩
   rw [hkp, he, hv]
   simp only [keyshareU, mul_one]
   rw [zunit_one, mul_one] at hA
@@ -75,9 +78,13 @@ theorem sign_verifies (isPrime : Nat → Bool) (pk : PublicKey) (order : Int) (m
   simp
 
 /-- C05-1 (totality): on such a key the signing computation succeeds whenever `e` is invertible
-    modulo `order`. -/
+    modulo `order` and no message of the block is negative and longer than `Lm` bits (`hneg`;
+    non-negative messages satisfy it: `sign_succeeds_of_nonneg`).  Without `hneg` the statement
+    is false: `RepresentToPublicKey` returns its error on such a block and nothing is signed
+    (`sign_refuses_negative_oversized`, and the `#guard` below on the toy key: `[3, -256]`). -/
 theorem sign_succeeds (pk : PublicKey) (order : Int) (ms : List Int) (v e : Int)
-    (hk : pk.InGroup order) (hlen : ms.length ≤ pk.r.length) (he : Int.gcd e order = 1) :
+    (hk : pk.InGroup order) (hlen : ms.length ≤ pk.r.length)
+    (hneg : ∀ m ∈ ms, ¬ (m < 0 ∧ bitLen m > pk.params.Lm)) (he : Int.gcd e order = 1) :
     ∃ sig, clSignWith pk order 1 ms v e = some sig := by
   obtain ⟨hn, hz0, hz1, ho, hb⟩ := hk
   obtain ⟨n, hN⟩ : ∃ n : ℕ, pk.n = n := ⟨pk.n.toNat, (Int.toNat_of_nonneg (by omega)).symm⟩
@@ -88,7 +95,22 @@ theorem sign_succeeds (pk : PublicKey) (order : Int) (ms : List Int) (v e : Int)
     (isUnit_of_goExp_one (by omega : 0 < n) ho0 (hb pk.z (by simp)))
     (isUnit_of_goExp_one (by omega : 0 < n) ho0 (hb pk.s (by simp)))
     (fun b hbr => isUnit_of_goExp_one (by omega : 0 < n) ho0 (hb b (by simp [hbr])))
-    (by simp) hlen ho0 he
+    (by simp) hlen (any_negOversized_eq_false_iff.mpr hneg) ho0 he
+
+/-- C05-1 (totality) for non-negative messages. -/
+theorem sign_succeeds_of_nonneg (pk : PublicKey) (order : Int) (ms : List Int) (v e : Int)
+    (hk : pk.InGroup order) (hlen : ms.length ≤ pk.r.length)
+    (hnn : ∀ m ∈ ms, 0 ≤ m) (he : Int.gcd e order = 1) :
+    ∃ sig, clSignWith pk order 1 ms v e = some sig :=
+  sign_succeeds pk order ms v e hk hlen (fun m hm hc => absurd (hnn m hm) (by omega)) he
+
+/-- the issuer signs nothing on a block with a negative message longer than `Lm` bits
+    (`RepresentToPublicKey` returns its error), whatever the key, `U`, `v`, `e` are. -/
+theorem sign_refuses_negative_oversized (pk : PublicKey) (order u : Int) (ms : List Int)
+    (v e : Int) (m : Int) (hm : m ∈ ms) (hneg : m < 0) (hlong : bitLen m > pk.params.Lm) :
+    clSignWith pk order u ms v e = none :=
+  clSignWith_of_negOversized
+    (List.any_eq_true.mpr ⟨m, hm, negOversized_iff.mpr ⟨hneg, hlong⟩⟩)
 
 /-- C05-4: **randomisation keeps validity** (one step, any integer randomiser `r`).  Only `Z`
     and `S` have to be invertible modulo `n` (the randomised `v - e·r` is usually negative, so
@@ -166,6 +188,36 @@ theorem verify_binds_block' (isPrime : Nat → Bool) (pk : PublicKey) (sig : CLS
   rw [Int.emod_eq_of_lt a0 a1, Int.emod_eq_of_lt b0 b1] at heq
   rw [hN, hr, hr', heq]
 
+/-- C05-6: **an accepted block has no negative message longer than `Lm` bits.**  The hash that
+    replaces an oversized message is over its magnitude only, so `-x` would stand for `x`;
+    `RepresentToPublicKey` refuses such a block and `Verify` returns `false`. -/
+theorem verified_block_no_negative_oversized (isPrime : Nat → Bool) (pk : PublicKey)
+    (sig : CLSignature) (ms : List Int) (h : clVerifyWith isPrime pk sig ms = .ok true) :
+    ∀ m ∈ ms, ¬ (m < 0 ∧ bitLen m > pk.params.Lm) :=
+  any_negOversized_eq_false_iff.mp (clVerifyWith_ok_true_guard isPrime pk sig ms h)
+
+/-- C05-6, "checked against a different message block never verifies": for `x > 0` longer than
+    `Lm` bits, a block containing `-x` is never accepted — whatever the signature, the key and
+    the rest of the block are (in particular not with a signature on the block that has `x`
+    there, although both blocks have the same representation). -/
+theorem negated_oversized_never_verifies (isPrime : Nat → Bool) (pk : PublicKey)
+    (sig : CLSignature) (ms : List Int) (x : Int) (hx : 0 < x) (hlong : bitLen x > pk.params.Lm)
+    (hmem : -x ∈ ms) : clVerifyWith isPrime pk sig ms ≠ .ok true := by
+  intro h
+  refine verified_block_no_negative_oversized isPrime pk sig ms h (-x) hmem ⟨by omega, ?_⟩
+  have : bitLen (-x) = bitLen x := by simp [bitLen]
+  rw [this]
+  exact hlong
+
+/-- … and when `Verify` does not panic (`clVerifyWith … = .ok b`: e.g. invertible bases, at most
+    as many messages as bases) the answer is `false`. -/
+theorem negated_oversized_rejected (isPrime : Nat → Bool) (pk : PublicKey)
+    (sig : CLSignature) (ms : List Int) (x : Int) (hx : 0 < x) (hlong : bitLen x > pk.params.Lm)
+    (hmem : -x ∈ ms) {b : Bool} (hb : clVerifyWith isPrime pk sig ms = .ok b) : b = false := by
+  cases b with
+  | false => rfl
+  | true => exact absurd hb (negated_oversized_never_verifies isPrime pk sig ms x hx hlong hmem)
+
 /-! ### non-vacuity (toy key `Gabi.toyKey`: `n = 77`, bases in `QR_77`, `order = 15`) -/
 
 /-- the hypotheses of `sign_verifies` are satisfiable: on the toy key a signature on `[3, 5]`
@@ -173,6 +225,7 @@ theorem verify_binds_block' (isPrime : Nat → Bool) (pk : PublicKey) (sig : CLS
 example : ∃ sig, clSignWith toyKey 15 1 [3, 5] 6 11 = some sig ∧
     clVerifyWith (fun k => decide (k = 11)) toyKey sig [3, 5] = .ok true := by
   obtain ⟨sig, h⟩ := sign_succeeds toyKey 15 [3, 5] 6 11 toyKey_inGroup (by decide) (by decide)
+    (by decide)
   exact ⟨sig, h, sign_verifies _ toyKey 15 [3, 5] 6 11 sig toyKey_inGroup (by decide) (by decide)
     (by decide) h⟩
 
@@ -181,10 +234,35 @@ example : ∃ sig, clVerifyWith (fun k => decide (k = 11)) toyKey sig [3, 5] = .
     sig.keyshareP = none ∧ 1 < toyKey.n ∧ 0 ≤ toyKey.z ∧ toyKey.z < toyKey.n ∧
     Int.gcd toyKey.z toyKey.n = 1 ∧ Int.gcd toyKey.s toyKey.n = 1 := by
   obtain ⟨sig, h⟩ := sign_succeeds toyKey 15 [3, 5] 6 11 toyKey_inGroup (by decide) (by decide)
+    (by decide)
   have hv := sign_verifies (fun k => decide (k = 11)) toyKey 15 [3, 5] 6 11 sig toyKey_inGroup
     (by decide) (by decide) (by decide) h
   have := (clSignWith_keyshareP h).1
   exact ⟨sig, hv, this, by decide, by decide, by decide, by decide, by decide⟩
+
+/-- the hypotheses of `verified_block_no_negative_oversized` are satisfiable (first example above);
+    those of `negated_oversized_never_verifies` / `sign_refuses_negative_oversized` too:
+    `Lm = 8`, `x = 256` has 9 bits.  On the toy key the issuer signs `[3, 256]`, that signature
+    verifies over `[3, 256]` and is refused over `[3, -256]`, although both blocks have the same
+    representation (`attrExp` hashes the magnitude); the issuer does not sign `[3, -256]`. -/
+example : (0 : Int) < 256 ∧ bitLen 256 > toyKey.params.Lm ∧ (-256 : Int) ∈ [3, -256] := by decide
+
+#guard (clSignWith toyKey 15 1 [3, 256] 6 11).isSome
+#guard clSignWith toyKey 15 1 [3, -256] 6 11 == none
+#guard representToBases toyKey.r [3, 256] toyKey.n toyKey.params.Lm ==
+  representToBases toyKey.r [3, -256] toyKey.n toyKey.params.Lm
+#guard match clSignWith toyKey 15 1 [3, 256] 6 11 with
+  | some sig => clVerifyWith (fun k => decide (k = 11)) toyKey sig [3, 256] == .ok true &&
+      clVerifyWith (fun k => decide (k = 11)) toyKey sig [3, -256] == .ok false
+  | none => false
+/- the guard comes before any base is indexed: more messages than bases, one of them negative and
+   oversized — `false` instead of the index panic. -/
+#guard match clSignWith toyKey 15 1 [3, 256] 6 11 with
+  | some sig =>
+      clVerifyWith (fun k => decide (k = 11)) toyKey sig [3, 5, 7, -256] == .ok false &&
+      clVerifyWith (fun k => decide (k = 11)) toyKey sig [3, 5, 7, 256] ==
+        .error (.indexOutOfRange "bases[i]")
+  | none => false
 
 /-- the interval / primality rejections are reachable. -/
 example : eInInterval toyParamsCL 13 = false ∧ eInInterval toyParamsCL 9 = true := by decide
@@ -196,7 +274,12 @@ end Gabi.C05
 #print axioms Gabi.C05.accepted_e
 #print axioms Gabi.C05.sign_verifies
 #print axioms Gabi.C05.sign_succeeds
+#print axioms Gabi.C05.sign_succeeds_of_nonneg
+#print axioms Gabi.C05.sign_refuses_negative_oversized
 #print axioms Gabi.C05.randomize_verifies
 #print axioms Gabi.C05.randomize_verifies_iter
 #print axioms Gabi.C05.verify_binds_block
 #print axioms Gabi.C05.verify_binds_block'
+#print axioms Gabi.C05.verified_block_no_negative_oversized
+#print axioms Gabi.C05.negated_oversized_never_verifies
+#print axioms Gabi.C05.negated_oversized_rejected
